@@ -104,7 +104,8 @@ impl E {
                 if parent > 2 || (parent == 2 && !right_side) { format!("({})", s) } else { s }
             }
             E::Or(a, b) => {
-                let s = format!("{} OR {}", a.print_min(2, false), b.print_min(1, true));
+                // the left operand of OR is an and_expr in the grammar: an AND there needs no parentheses (a AND b OR c), an OR does
+                let s = format!("{} OR {}", a.print_min(1, false), b.print_min(1, true));
                 if parent > 1 || (parent == 1 && !right_side) { format!("({})", s) } else { s }
             }
         }
